@@ -39,7 +39,9 @@ def construct(ps):
         # the tabulated planner is the code path taken when numba is importable; without numba installed the
         # module's fallback njit is the identity, so forcing `numba` to a sentinel runs that very function as Python
         mixed_mod.numba = object() if ps[4] == "tab" else None
-        return cs.MixedCheckpointSchedule(int(ps[1]), int(ps[2]), storage=STG[ps[3]])
+        obj = cs.MixedCheckpointSchedule(int(ps[1]), int(ps[2]), storage=STG[ps[3]])
+        obj._verif_numba = mixed_mod.numba
+        return obj
     if k == "rev":
         n, r, d, uf, ub, wd, rd = (int(x) for x in ps[2:9])
         if ps[1] == "revolve":
@@ -77,22 +79,31 @@ def split_bar(t):
     return out
 
 
-def run_sched(ident, toks, out, actions_out=None):
-    out.append("#" + ident)
-    ps, xp, ops = split_bar(toks)
-    N, keep = int(xp[0]), xp[1] == "1"
-    bram = None if xp[2] == "-" else int(xp[2])
-    bdisk = None if xp[3] == "-" else int(xp[3])
-    try:
-        with contextlib.redirect_stdout(io.StringIO()):
-            s = construct(ps)
-    except Exception as e:  # noqa
-        out.append("CTOR EXC:" + type(e).__name__)
-        return
-    mon = Monitor(N, keep, bram, bdisk)
-    out.append("O " + canon.obs2s(s, StorageType))
+class Runner:
+    """one schedule object driven op by op"""
+    def __init__(self, ident, toks):
+        self.out = ["#" + ident]
+        ps, xp, ops = split_bar(toks)
+        self.ops = list(ops)
+        N, keep = int(xp[0]), xp[1] == "1"
+        bram = None if xp[2] == "-" else int(xp[2])
+        bdisk = None if xp[3] == "-" else int(xp[3])
+        self.s = None
+        try:
+            with contextlib.redirect_stdout(io.StringIO()):
+                self.s = construct(ps)
+        except Exception as e:  # noqa
+            self.out.append("CTOR EXC:" + type(e).__name__)
+            self.ops = []
+            return
+        self.mon = Monitor(N, keep, bram, bdisk)
+        self.out.append("O " + canon.obs2s(self.s, StorageType))
 
-    def do_next():
+    def do_next(self):
+        s, out, mon = self.s, self.out, self.mon
+        # the Mixed planner path is a module-level switch: select it for this object on every resumption
+        if type(s).__name__ == "MixedCheckpointSchedule":
+            mixed_mod.numba = getattr(s, "_verif_numba", mixed_mod.numba)
         try:
             with contextlib.redirect_stdout(io.StringIO()):
                 a = next(s)
@@ -103,9 +114,10 @@ def run_sched(ident, toks, out, actions_out=None):
             out.append("N EXC:" + type(e).__name__ + " | " + canon.obs2s(s, StorageType))
             return None
         txt = canon.act2s(a)
-        if actions_out is not None:
-            actions_out.append(a)
         out.append("N Y:" + txt + " | " + canon.obs2s(s, StorageType))
+        v = value_check(a)
+        if v:
+            out.append("VAL " + v)
         try:
             pa = parse_action(txt)
             mon.step(pa, s.n, s.r, s.max_n, bool(s.is_exhausted))
@@ -115,9 +127,14 @@ def run_sched(ident, toks, out, actions_out=None):
             mon.count += 1
         return txt
 
-    for o in ops:
+    def step(self):
+        """execute the next op; False when no op is left"""
+        if not self.ops:
+            return False
+        o = self.ops.pop(0)
+        s, out = self.s, self.out
         if o == "n":
-            do_next()
+            self.do_next()
         elif o[0] == "f":
             k = int(o[1:])
             try:
@@ -131,7 +148,7 @@ def run_sched(ident, toks, out, actions_out=None):
             k, lim = int(k), int(lim)
             while lim > 0:
                 lim -= 1
-                t = do_next()
+                t = self.do_next()
                 if t is None:
                     break
                 if t == "ER":
@@ -140,7 +157,77 @@ def run_sched(ident, toks, out, actions_out=None):
                         break
         else:
             raise ValueError(o)
-    out.append(mon.line())
+        return True
+
+    def finish(self):
+        if self.s is not None:
+            self.out.append(self.mon.line())
+        return self.out
+
+
+def value_check(a):
+    """C18: equality, repr round trip, len / iteration / membership of one emitted action; '' when fine"""
+    import sys as _sys
+    ns = {"Forward": cs.Forward, "Reverse": cs.Reverse, "Copy": cs.Copy, "Move": cs.Move, "EndForward": cs.EndForward,
+          "EndReverse": cs.EndReverse, "StorageType": StorageType, "sys": _sys}
+    try:   # the tabulated Mixed planner yields numpy integers, whose repr names the numpy module
+        import numpy as _np
+        ns["np"] = ns["numpy"] = _np
+    except ImportError:
+        pass
+    try:
+        b = eval(repr(a), ns)
+        if type(b) is not type(a) or b.args != a.args:
+            return "eval(repr(a)) differs from a: %r" % (a,)
+        if not (a == b) or (a != b):
+            return "a == eval(repr(a)) is False: %r" % (a,)
+        if a == cs.EndForward() and type(a).__name__ != "EndForward":
+            return "%r == EndForward()" % (a,)
+        if type(a).__name__ in ("Forward", "Reverse"):
+            n0, n1 = a.n0, a.n1
+            if len(a) != n1 - n0:
+                return "len(%r) = %d" % (a, len(a))
+            if n1 - n0 <= 64:
+                want = list(range(n0, n1)) if type(a).__name__ == "Forward" else list(range(n1 - 1, n0 - 1, -1))
+                if list(a) != want:
+                    return "list(%r) = %r" % (a, list(a))
+            for x in (n0 - 1, n0, n1 - 1, n1):
+                if (x in a) != (n0 <= x < n1):
+                    return "%d in %r is %r" % (x, a, x in a)
+    except Exception as e:  # noqa
+        return "value operation raised %s on %r" % (type(e).__name__, a)
+    return ""
+
+
+def run_sched(ident, toks, out):
+    r = Runner(ident, toks)
+    while r.step():
+        pass
+    out.extend(r.finish())
+
+
+def run_interleaved(ident, toks, out):
+    """I <id> <order...> | <sub-case 1 tokens> || <sub-case 2 tokens> ...   (sub-case = class params | xparams | ops)
+    objects are constructed in order, then ops are executed in the global order given (object indices); leftover ops
+    are run object by object at the end.  Output: one block per object, ids <id>/<j>."""
+    bar = toks.index("|")
+    order = [int(x) for x in toks[:bar]]
+    subs, cur = [], []
+    for x in toks[bar + 1:]:
+        if x == "||":
+            subs.append(cur)
+            cur = []
+        else:
+            cur.append(x)
+    subs.append(cur)
+    rs = [Runner("%s/%d" % (ident, j), sub) for j, sub in enumerate(subs)]
+    for j in order:
+        rs[j].step()
+    for r in rs:
+        while r.step():
+            pass
+    for r in rs:
+        out.extend(r.finish())
 
 
 def res(f):
@@ -228,11 +315,51 @@ def run_val(ident, t, out):
         r = res(lambda: canon.i2s(pr.mxrr_close_formula(int(t[1]), int(t[2]), int(t[3]), int(t[4]))))
     elif k == "argmin":
         r = res(lambda: canon.i2s(bf.argmin([int(x) for x in t[1:]])))
+    elif k == "pairs":
+        r = res(lambda: pair_laws(int(t[1]), int(t[2])))
     elif k == "beta":
         r = res(lambda: num(bf.beta(int(t[1]), int(t[2]))))
     else:
         raise ValueError(k)
     out.append(r)
+
+
+def pair_laws(seed, count):
+    """C18: for random directly constructed pairs, a == b iff same kind and equal parameters; never raises"""
+    import random
+    rng = random.Random(seed)
+    sts = [StorageType.RAM, StorageType.DISK, StorageType.WORK, StorageType.NONE]
+
+    def mk():
+        k = rng.randint(0, 5)
+        a, b = rng.randint(0, 3), rng.randint(0, 3)
+        if k == 0:
+            return ("F", a, a + 1 + b, rng.random() < .5, rng.random() < .5, rng.choice(sts))
+        if k == 1:
+            return ("R", a + 1 + b, a, rng.random() < .5)
+        if k == 2:
+            return ("C", a, rng.choice(sts[:2]), rng.choice(sts))
+        if k == 3:
+            return ("M", a, rng.choice(sts[:2]), rng.choice(sts))
+        return ("EF",) if k == 4 else ("ER",)
+
+    def build(t):
+        return {"F": cs.Forward, "R": cs.Reverse, "C": cs.Copy, "M": cs.Move, "EF": cs.EndForward, "ER": cs.EndReverse}[t[0]](*t[1:])
+    for _ in range(count):
+        ta = mk()
+        tb = ta if rng.random() < .3 else mk()
+        a, b = build(ta), build(tb)
+        try:
+            eq = (a == b)
+            ne = (a != b)
+        except Exception as e:  # noqa
+            return "%r == %r raised %s" % (a, b, type(e).__name__)
+        if eq is not (ta == tb) or ne is not (ta != tb):
+            return "%r == %r is %r" % (a, b, eq)
+        v = value_check(a)
+        if v:
+            return v
+    return "ok"
 
 
 def run_lines(lines):
@@ -243,6 +370,8 @@ def run_lines(lines):
             continue
         if toks[0] == "S":
             run_sched(toks[1], toks[2:], out)
+        elif toks[0] == "I":
+            run_interleaved(toks[1], toks[2:], out)
         elif toks[0] == "V":
             run_val(toks[1], toks[2:], out)
         else:
